@@ -255,7 +255,9 @@ func runSeq(c SeqCase, rec *h.Rec) error {
 				if i == 0 {
 					acc1 = r1
 				} else {
-					p.AggregateShares(acc1, r1, &acc1)
+					if err := callErr(p.AggregateShares, acc1, r1, &acc1); err != nil {
+						return h.Failf("C14:RKG:aggregation-failed", "%s round one: %v", tag, err)
+					}
 				}
 			}
 			for i := 0; i < n; i++ {
@@ -263,11 +265,15 @@ func runSeq(c SeqCase, rec *h.Rec) error {
 				if i == 0 {
 					acc2 = r2[0]
 				} else {
-					p.AggregateShares(acc2, r2[i], &acc2)
+					if err := callErr(p.AggregateShares, acc2, r2[i], &acc2); err != nil {
+						return h.Failf("C14:RKG:aggregation-failed", "%s round two: %v", tag, err)
+					}
 				}
 			}
 			rlk := rlwe.NewRelinearizationKey(params, ek)
-			p.GenRelinearizationKey(acc1, acc2, rlk)
+			if err := callErr(p.GenRelinearizationKey, acc1, acc2, rlk); err != nil {
+				return h.Failf("C14:RKG:GenRelinearizationKey-error", "%s: %v", tag, err)
+			}
 			erow := new(big.Int).Add(s1, u1)
 			erow.Add(erow, big.NewInt(1))
 			erow.Mul(erow, nB)
